@@ -40,7 +40,9 @@ Inductive epc :=
 | ECheck               (* Run: about to test noMoreEvent() *)
 | ELock                (* Run: saw an event, about to pauseLock.Lock() *)
 | EPop                 (* Run: holds pauseLock, about to pop and handle *)
-| ESend (mp : bool)    (* Tick: about to sendToGPUs (and the middlewares' Tick) *)
+| ESend (mp : bool)    (* Tick: about to sendToGPUs *)
+| EEmpty (mp : bool)   (* the copy middleware's Tick: completeEmptyCopies, next entry *)
+| EEmptyNotify (q : nat) (* Dequeue in completeMemCopyH2D/D2H of an empty copy: removed, about to notify *)
 | ERet (mp : bool)     (* Tick: about to processReturnReq *)
 | ERetNotify (q : nat) (* Dequeue in processLaunchKernelReturn: removed, about to notify *)
 | EQ (i : nat) (mp : bool) (* processNewCommandFromCmdQueue(queue i) *)
@@ -61,6 +63,7 @@ Record state := mkState {
   rerun : bool;            (* repaired code only: a signal arrived while the engine was running *)
   tick : bool;             (* a tick event of the driver is in the event queue *)
   tosend : list nat;       (* Driver.requestsToSend: requests built by processNewCommand, sent by the next Ticks *)
+  empties : list nat;      (* defaultMemoryCopyMiddleware.emptyCopies: started copies that wait for no request *)
   gpu : list nat;          (* queues with a request being served: one pending event each *)
   resp : list nat;         (* responses waiting in the driver's GPU port (by issuing queue) *)
   next_req : N;            (* sim.GetIDGenerator(): next fresh request ID *)
@@ -70,11 +73,11 @@ Record state := mkState {
   g_log : list (nat * nat * N)  (* ghost: (thread, queue, id) of every Enqueue, in order *)
 }.
 #[export] Instance eta_state : Settable _ :=
-  settable! mkState <apps; queues; ra; eng; ewait; edone; pause; erunning; rerun; tick; tosend; gpu; resp; next_req; mw0; crashed; g_log>.
+  settable! mkState <apps; queues; ra; eng; ewait; edone; pause; erunning; rerun; tick; tosend; empties; gpu; resp; next_req; mw0; crashed; g_log>.
 
 (** queues are listed context by context; [cs] gives the context of each *)
 Definition init_ctx (cs : list nat) (progs : list (list op)) : state :=
-  mkState (map init_app progs) (map empty_queue_in cs) RTop None 0 0 false false false false [] [] [] 1%N true false [].
+  mkState (map init_app progs) (map empty_queue_in cs) RTop None 0 0 false false false false [] [] [] [] 1%N true false [].
 
 (** the harness' layout: one context for one queue, otherwise two contexts,
     the first half of the queues in the first one *)
@@ -194,8 +197,33 @@ Definition eng_step (c : cfg) (s : state) : option state :=
     | EPop => if tick s then Some (set_eng (ESend (mw0 s)) (s <| tick := false |> <| mw0 := false |>)) else None
     | ESend mp =>                                   (* sendToGPUs: at most one request per tick *)
       match tosend s with
+      | [] => Some (set_eng (EEmpty mp) s)
+      | q :: r => Some (set_eng (EEmpty true) (s <| tosend := r |> <| gpu := gpu s ++ [q] |>))
+      end
+    | EEmpty mp =>                                  (* completeEmptyCopies: all of them in this Tick *)
+      match empties s with
       | [] => Some (set_eng (ERet mp) s)
-      | q :: r => Some (set_eng (ERet true) (s <| tosend := r |> <| gpu := gpu s ++ [q] |>))
+      | q :: r =>
+        match nth_error (queues s) q with
+        | None => Some (s <| crashed := true |>)
+        | Some qq =>
+          match q_cmds qq with
+          | cm :: rest =>
+            if q_running qq   (* always set here (invariant); the Go code does not test it *)
+            then Some (set_eng (EEmptyNotify q)
+                   (s <| empties := r |>
+                      <| queues := upd q (fun qq => qq <| q_cmds := rest |> <| q_running := false |>
+                                                      <| q_done := q_done qq ++ [c_id cm] |>) (queues s) |>))
+            else Some (s <| crashed := true |>)
+          | [] => Some (s <| crashed := true |>)      (* Dequeue of an empty queue: index out of range *)
+          end
+        end
+      end
+    | EEmptyNotify q =>
+      match nth_error (queues s) q with
+      | None => None
+      | Some qq =>
+        Some (set_eng (EEmpty true) (s <| apps := notify_all (cap1 c) (q_lst qq) (apps s) |>))
       end
     | ERet mp =>
       match resp s with
@@ -246,6 +274,13 @@ Definition eng_step (c : cfg) (s : state) : option state :=
                                                     <| q_start := q_start qq ++ [c_id cm] |>) (queues s) |>
                       <| next_req := N.succ (next_req s) |>
                       <| tosend := tosend s ++ [i] |>))
+               | Empty =>    (* processMemCopy*Command: no request; cyclesLeft := cyclesPer*2* (0): mw0 again *)
+                 Some (set_eng (eq_or_end s (S i) true)
+                   (* q_req: a fresh tag no response will ever carry (the Go command has no request at all) *)
+                   (s <| queues := upd i (fun qq => qq <| q_running := true |> <| q_req := next_req s |>
+                                                    <| q_start := q_start qq ++ [c_id cm] |>) (queues s) |>
+                      <| next_req := N.succ (next_req s) |>
+                      <| empties := empties s ++ [i] |> <| mw0 := true |>))
                end
         end
       end
@@ -339,7 +374,7 @@ Definition rapc_code (p : rapc) : N :=
 Definition epc_code (p : option epc) : N * N :=
   match p with
   | None => (0, 0)
-  | Some ECheck => (1, 0) | Some ELock => (2, 0) | Some EPop => (3, 0) | Some (ESend _) => (11, 0)
+  | Some ECheck => (1, 0) | Some ELock => (2, 0) | Some EPop => (3, 0) | Some (ESend _) => (11, 0) | Some (EEmpty _) => (12, 0) | Some (EEmptyNotify q) => (13, N.of_nat q)
   | Some (ERet _) => (4, 0) | Some (ERetNotify q) => (5, N.of_nat q)
   | Some (EQ i _) => (6, N.of_nat i) | Some (EQNotify i) => (7, N.of_nat i)
   | Some (EEnd _) => (8, 0) | Some EReturned => (9, 0) | Some EExit => (10, 0)
@@ -432,13 +467,13 @@ Definition sched_lost : list tstep :=
    TRa;                       (* runAsync reaches its select *)
    TApp 0;                    (* enqueueSignal rendezvous *)
    TRa; TRa; TRa; TRa;        (* Pause, TickLater, Continue, test+spawn *)
-   TEngStart; TEng; TEng; TEng; TEng; TEng;  (* acquire, noMoreEvent=false, lock, pop tick, sendToGPUs, processReturnReq *)
+   TEngStart; TEng; TEng; TEng; TEng; TEng; TEng;  (* acquire, noMoreEvent=false, lock, pop tick, sendToGPUs, completeEmptyCopies, processReturnReq *)
    TApp 0;                    (* waiter: NumCommand() = 1 *)
    TEng;                      (* Dequeue removes the command *)
    TEng;                      (* ... and notifies: nobody is receiving -> default *)
    TApp 0                     (* waiter: <-signal blocks *)
   ]
-  ++ [TEng; TEng; TEng; TEng; TEng; TEng; TEng; TEng; TEng; TEng; TEng]  (* next tick finds nothing; Run returns; exit *)
+  ++ [TEng; TEng; TEng; TEng; TEng; TEng; TEng; TEng; TEng; TEng; TEng; TEng]  (* next tick finds nothing; Run returns; exit *)
   ++ [TRa].
 
 (** (2) engine-exit race: Run has returned, engineRunning is still true while
@@ -447,9 +482,9 @@ Definition prog_exit : list (list op) :=
   [[OEnq 0 (noop 1); ODrain 0; OEnq 0 (noop 2); ODrain 0]].
 Definition sched_exit : list tstep :=
   [TApp 0; TApp 0; TApp 0; TRa; TApp 0; TRa; TRa; TRa; TRa;
-   TEngStart; TEng; TEng; TEng; TEng; TEng; TEng; TEng;    (* ... Dequeue + notify *)
+   TEngStart; TEng; TEng; TEng; TEng; TEng; TEng; TEng; TEng;    (* ... Dequeue + notify *)
    TApp 0; TApp 0; TApp 0;                                 (* check = 0, close, unsubscribe: first Drain returned *)
-   TEng; TEng; TEng; TEng; TEng; TEng; TEng; TEng; TEng;   (* second tick: nothing; noMoreEvent -> Run returns *)
+   TEng; TEng; TEng; TEng; TEng; TEng; TEng; TEng; TEng; TEng;   (* second tick: nothing; noMoreEvent -> Run returns *)
    TRa;                                                    (* runAsync back in select *)
    TApp 0; TApp 0; TApp 0; TApp 0;                         (* Enqueue; subscribe; signal *)
    TRa; TRa; TRa; TRa;                                     (* tick scheduled; engineRunning still true -> continue *)
@@ -474,3 +509,78 @@ Fixpoint auto_run (fuel : nat) (c : cfg) (s : state) : list tstep * state :=
            | Some (l, s') => let (ls, s'') := auto_run f c s' in (l :: ls, s'')
            end
   end.
+
+(* ---------------------------------------------------------------- *)
+(** * The driver ticked by hand (copy mode of the harness)
+
+    No goroutines: the harness enqueues every command first, then alternates
+    [Driver.Tick()] calls with answers of its GPU.  One call of Tick is the run
+    of the engine goroutine's steps from EPop (tick event) to EEnd; nobody
+    listens, so the notifications are no-ops. *)
+
+Fixpoint tick_run (fuel : nat) (c : cfg) (s : state) : state :=
+  match fuel with
+  | O => s
+  | S k => match eng s with
+           | Some (EEnd _) => s
+           | _ => match eng_step c s with Some s' => tick_run k c s' | None => s end
+           end
+  end.
+
+(** returns the state after the call and Tick's result (madeProgress) *)
+Definition hand_tick (c : cfg) (s : state) : state * bool :=
+  let fuel := 12 + 4 * (length (queues s) + length (empties s)) in
+  let s1 := tick_run fuel c (s <| eng := Some EPop |> <| tick := true |> <| pause := true |>) in
+  (s1 <| eng := None |> <| tick := false |> <| pause := false |>,
+   match eng s1 with Some (EEnd mp) => mp | _ => false end).
+
+(** the harness' GPU answers the request of queue q *)
+Definition hand_answer (s : state) (q : nat) : option state :=
+  if mem_nat q (gpu s) then Some (s <| gpu := remove_first q (gpu s) |> <| resp := resp s ++ [q] |>) else None.
+
+Inductive hevent := HTick | HAnswer (q : nat).
+
+Fixpoint enqueue_all (q : nat) (progs : list (list cmd)) (qs : list queue) : list queue :=
+  match progs with
+  | [] => qs
+  | p :: r => enqueue_all (S q) r (upd q (fun qq => fold_left (fun x cm => q_append cm x) p qq) qs)
+  end.
+
+Definition hand_init (cs : list nat) (progs : list (list cmd)) : state :=
+  let s := init_ctx cs [] in s <| queues := enqueue_all 0 progs (queues s) |>.
+
+(** per queue [length; head id + 1 or 0; IsRunning], 99, requests sent and not
+    answered, crashed *)
+Definition hand_observe (s : state) : list N :=
+  flat_map (fun q => [N.of_nat (length (q_cmds q));
+                      match q_cmds q with [] => 0 | cm :: _ => c_id cm + 1 end;
+                      b2n (q_running q)]%N) (queues s)
+  ++ [99%N; N.of_nat (length (gpu s)); b2n (crashed s)].
+
+Record hcase := mkHand {
+  h_ctx : list nat; h_progs : list (list cmd);
+  h_events : list (hevent * bool * list N)   (* event, Tick's result (false for answers), observation *)
+}.
+
+Fixpoint check_hand (c : cfg) (s : state) (k : nat) (l : list (hevent * bool * list N)) : nat :=
+  match l with
+  | [] => 0
+  | (HTick, mp, o) :: r =>
+    let (s', mp') := hand_tick c s in
+    if Bool.eqb mp mp' && list_eqb (hand_observe s') o then check_hand c s' (S k) r else k
+  | (HAnswer q, _, o) :: r =>
+    match hand_answer s q with
+    | Some s' => if list_eqb (hand_observe s') o then check_hand c s' (S k) r else k
+    | None => k
+    end
+  end.
+
+Fixpoint hmism_from (i : nat) (l : list hcase) : list (N * N) :=
+  match l with
+  | [] => []
+  | h :: r => match check_hand cfg_fixed (hand_init (h_ctx h) (h_progs h)) 1 (h_events h) with
+              | O => hmism_from (S i) r
+              | n => (N.of_nat i, N.of_nat n) :: hmism_from (S i) r
+              end
+  end.
+Definition hand_mismatches (l : list hcase) : list (N * N) := hmism_from 0 l.
